@@ -72,6 +72,8 @@ LEAVES = [
     ('strsp', False), ('strnl', False),
     ('a0', False), ('a1', False), ('a2', False), ('a2T', False), ('a1step', False), ('ai1', False),
     ('ai2', False), ('aempty', False), ('abool', True), ('af32', False), ('a3', False),
+    # one-element arrays (the profiles of a one-layer atmosphere): shape (1,) and (1, 1) stay what they are
+    ('a1one', False), ('a2one', False), ('ai1one', False),
     ('lnum', False), ('lint', False), ('tnum', False), ('lempty', False), ('larr', False),
     ('llist', False), ('lbool', True), ('tarr', False),
     ('ls', False), ('ls1', False), ('ls0', False), ('ls64', False), ('ls65', False),
@@ -83,7 +85,7 @@ LEAVES = [
 ]
 LEAF_NAMES = [l for l, _ in LEAVES]
 MAY_REFUSE = dict(LEAVES)
-CORE_LEAVES = ['float', 'int', 'true', 'str', 'str65', 'strU', 'a1', 'a2', 'ai1', 'lnum', 'larr',
+CORE_LEAVES = ['float', 'int', 'true', 'str', 'str65', 'strU', 'a1', 'a2', 'ai1', 'a1one', 'a2one', 'lnum', 'larr',
                'ls', 'ls65', 'lsU', 'lsU65', 'lsUmix', 'dict2', 'tnum']
 KEYS = ['k', 'k0', 'a b', u'kµ', 'K.1', ' k ']
 
@@ -129,6 +131,12 @@ def make_leaf(letter, salt):
         return 'two\nlines\ttab'
     if letter == 'a0':
         return np.array(float(u()))
+    if letter == 'a1one':
+        return u(1)
+    if letter == 'a2one':
+        return u(1, 1)
+    if letter == 'ai1one':
+        return r.randint(0, 100, size=1)
     if letter == 'a1':
         return u(3)
     if letter == 'a2':
